@@ -294,7 +294,7 @@ def conf_scenarios(out_files):
     return scen
 
 
-def conformance(tmp, out_files, tag, max_scen=400):
+def conformance(tmp, out_files, tag, max_scen=400, budget_s=None):
     """Hidden-step conformance of single-session traces with Advertiser.tla
     (spec/AdvConf.tla). Returns (n_checked, deviations [ids], tlc stats)."""
     scen = conf_scenarios(out_files)
@@ -321,16 +321,19 @@ def conformance(tmp, out_files, tag, max_scen=400):
         groups.setdefault(key, []).append(evs)
     explained, deviations, stats = set(), [], []
     total = 0
+    t_start = time.time()
     for key, lst in sorted(groups.items(), key=lambda kv: str(kv[0])):
         lst = lst[:max_scen]
-        total += len(lst)
         unicast, cfglife, mn, mx = key
         rs = lambda x: ((x + 500) // 1000) * 1000
         consts = dict(MinDelay=3000, MaxRADelay=500, InitCap=16000, InitCount=3, MinIv=rs(mn), MaxIv=rs(mx), ChanCap=16, Retries=5,
                       BackoffUnit=50, UnicastOnly="TRUE" if unicast else "FALSE", CfgLife=cfglife, Hosts="{}", Kinds="{}", MaxIn=0, DebugK=0,
                       MaxT=0, MaxFlips=0, MaxHolds=0, WriteFaults="TRUE", LinkFaults="TRUE", AllowCancel="TRUE", Sec=1000, MaxQueries=0)
         for b in range(0, len(lst), 100):
+            if budget_s is not None and time.time() - t_start > budget_s:
+                break
             part = lst[b:b + 100]
+            total += len(part)
             wd = vf.mktmp("vf-conf-")
             rows = [e for evs in part for e in evs]
             vf.write_ndjson(os.path.join(wd, "trace.ndjson"), rows)
